@@ -1,3 +1,88 @@
-import LokiModel.C31.Model
+import LokiModel.C31.Unroll
+/-!
+# C31 — loop transformations preserve behaviour where they apply (property theorems)
+
+**Unrolling.**  `unrollCopies v body ks` is what `LoopUnrollTransformer.visit_Loop` puts in place of `do v = lo, hi[, step]`
+when `unrollRange lo hi step = some ks` (literal bounds and step; `ks` = `get_pyrange`, the C10 model, which by the C10
+theorems is the Fortran DO sequence): one copy of the body per value, with `SubstituteExpressions({v: IntLiteral(k)})` applied
+(`substStmts`; PRINT statements are *not* substituted, as in the real code where they are text).
+
+`unroll_sound` (full strength for the covered class, all programs / states / fuel): for a body in the class `okSs v body`
+— `v` is not assigned, not an inner DO variable, not used as an array name, not mentioned in a PRINT statement; no ASSOCIATE
+and no CALL in the body — that has no EXIT / CYCLE of its own (`escapes body = false`), from every state without ASSOCIATE
+names in which `v` is an integer scalar: if the loop finishes (with a state or with an error), the unrolled statement list
+finishes too, with the same error, or with a state that has the same printed output and the same value in **every variable
+other than `v`** (the loop leaves `lo + trips*step` in `v`, the unrolled code leaves `v` as it was).
+
+The excluded inputs are exactly the places where the real transformation changes behaviour (classes `unroll-exit-cycle`,
+`unroll-print-text`, `unroll-associate-body`, `unroll-loopvar-live`, witnesses in `Findings/C31.lean`) or where the proof was
+not carried out (CALL in the body, loops inside ASSOCIATE: covered by the oracle only).
+-/
 namespace LokiModel.C31
+open LokiModel.Fir
+open LokiModel.Expr (Val)
+
+/-- **C31, unrolling one loop (relational form)**: the loop run from `σ` and the unrolled list run from any `σ'` that agrees
+with `σ` off the loop variable give results that agree off the loop variable (`ROff`: same error, or states related by `Off`,
+both with signal `normal`). -/
+theorem unroll_sound_rel (P : Program) (v : String) (lo hi : Ex) (step : Option Ex) (body : List Stmt) (ks : List Int)
+    (hr : unrollRange lo hi step = some ks) (hok : okSs v body = true) (hesc : escapes body = false)
+    (f : Nat) (σ σ' : St) (hoff : Off v σ σ') (hv : IntScalar σ v)
+    (r : Res) (hrun : execStmt P f (.doLoop v lo hi step body) σ = r) (hfin : r.isFuel = false) :
+    ∃ F r', execStmts P F (unrollCopies v body ks) σ' = r' ∧ ROff v r r' :=
+  unroll_loop P v lo hi step body ks hr hok hesc f σ σ' hoff hv r hrun hfin
+
+/-- **C31, unrolling one loop**: same start state; a finished loop is matched by the unrolled code on all variables other
+than the loop variable and on the printed output. -/
+theorem unroll_sound (P : Program) (v : String) (lo hi : Ex) (step : Option Ex) (body : List Stmt) (ks : List Int)
+    (hr : unrollRange lo hi step = some ks) (hok : okSs v body = true) (hesc : escapes body = false)
+    (f : Nat) (σ : St) (hal : σ.alias = []) (hv : IntScalar σ v) :
+    (∀ σ1 sg, execStmt P f (.doLoop v lo hi step body) σ = .ok σ1 sg →
+        sg = .normal ∧ ∃ F σ1', execStmts P F (unrollCopies v body ks) σ = .ok σ1' .normal ∧
+          (∀ x, x ≠ v → lookupCell σ1 x = lookupCell σ1' x) ∧ σ1.out = σ1'.out) ∧
+    (∀ m, execStmt P f (.doLoop v lo hi step body) σ = .err m →
+        ∃ F, execStmts P F (unrollCopies v body ks) σ = .err m) := by
+  have hoff : Off v σ σ := ⟨fun _ _ => rfl, hal, hal, rfl⟩
+  constructor
+  · intro σ1 sg hrun
+    obtain ⟨F, r', hF, hro⟩ := unroll_loop P v lo hi step body ks hr hok hesc f σ σ hoff hv _ hrun rfl
+    cases r' with
+    | ok b s' =>
+      obtain ⟨ho, h1, h2, _⟩ := hro
+      subst h1; subst h2
+      exact ⟨rfl, F, b, hF, ho.look, ho.out⟩
+    | err m => exact hro.elim
+    | fuel => exact hro.elim
+  · intro m hrun
+    obtain ⟨F, r', hF, hro⟩ := unroll_loop P v lo hi step body ks hr hok hesc f σ σ hoff hv _ hrun rfl
+    cases r' with
+    | ok b s' => exact hro.elim
+    | err m' => simp only [ROff] at hro; subst hro; exact ⟨F, hF⟩
+    | fuel => exact hro.elim
+
+/-- the value list used by the transformation is the Fortran DO sequence of the literal bounds (C10), for every non-zero step -/
+theorem unroll_range_is_do_sequence {lo hi : Ex} {step : Option Ex} {ks : List Int} (h : unrollRange lo hi step = some ks) :
+    ∃ l hh s, constInt lo = some l ∧ constInt hi = some hh ∧ stepConst step = some s ∧ s ≠ 0 ∧
+      ks = LokiModel.C10.doSeq l hh s := by
+  obtain ⟨l, hh, s, h1, h2, h3, h4, h5⟩ := unrollRange_some h
+  exact ⟨l, hh, s, h1, h2, h3, h4, by rw [h5, iterVals_doSeq]⟩
+
+/-- statement-level substitution lemma (the lifting of `evalE_subst`): a covered statement run where `v = k` and its substituted
+copy run in a state that agrees off `v` give related results with the same fuel -/
+theorem subst_stmts_sim (P : Program) (v : String) (k : Int) (f : Nat) (ss : List Stmt) (σ σ' : St)
+    (hok : okSs v ss = true) (h : Sim v k σ σ') :
+    RSim v k (execStmts P f ss σ) (execStmts P f (substStmts v (litInt k) ss) σ') :=
+  (sim P v k f).stmts ss σ σ' hok h
+
+/-! non-vacuity: a loop with a negative step over an array, body in the covered class -/
+
+def exBody : List Stmt :=
+  [.assign (.idx "a" [.var "i"]) (.bin .add (.idx "a" [.bin .sub (.var "i") (.lit (.int 1))]) (.var "i")),
+   .ifte (.bin (.cmp .gt) (.var "i") (.lit (.int 2))) [.assign (.var "s") (.bin .add (.var "s") (.var "i"))] []]
+
+example : okSs "i" exBody = true := by decide
+example : escapes exBody = false := by decide
+example : unrollRange (.lit (.int 5)) (.lit (.int 2)) (some (.neg (.lit (.int 2)))) = some [5, 3] := by decide
+example : unrollRange (.lit (.int 1)) (.lit (.int 3)) none = some [1, 2, 3] := by decide
+
 end LokiModel.C31
